@@ -7,8 +7,8 @@
 //! `<fn>`:
 //!   convert_utf16_to_str_partial | convert_utf16_to_str          (src: hex16)
 //!   convert_latin1_to_str_partial | convert_latin1_to_str        (src: hex)
-//!   decode_to_str:<ENC> | decode_to_str_without_replacement:<ENC> (src: hex; one call with `last = true`
-//!       of a fresh `new_decoder_without_bom_handling()`)
+//!   decode_to_str:<ENC>[:sniff] | decode_to_str_without_replacement:<ENC>[:sniff] (src: hex; one call with
+//!       `last = true` of a fresh `new_decoder_without_bom_handling()` / with `:sniff` of `new_decoder()`)
 //! `<written>` is what the call returned (`-` when it panicked); the model recomputes it for the `mem`
 //! functions and checks it against the complete decoding for the decoders, then recomputes the whole
 //! destination: written prefix, zeroed stride window (all functions but `decode_to_str*` of the UTF-8
@@ -37,7 +37,7 @@ enum Fun {
     U16Str,
     L1StrP,
     L1Str,
-    Dec(&'static Encoding, bool), // (encoding, with replacement)
+    Dec(&'static Encoding, bool, bool), // (encoding, with replacement, BOM sniffing)
 }
 
 impl Fun {
@@ -47,8 +47,12 @@ impl Fun {
             Fun::U16Str => "convert_utf16_to_str".to_string(),
             Fun::L1StrP => "convert_latin1_to_str_partial".to_string(),
             Fun::L1Str => "convert_latin1_to_str".to_string(),
-            Fun::Dec(e, true) => format!("decode_to_str:{}", ident(e)),
-            Fun::Dec(e, false) => format!("decode_to_str_without_replacement:{}", ident(e)),
+            Fun::Dec(e, repl, sniff) => format!(
+                "{}:{}{}",
+                if *repl { "decode_to_str" } else { "decode_to_str_without_replacement" },
+                ident(e),
+                if *sniff { ":sniff" } else { "" }
+            ),
         }
     }
     fn from_name(s: &str) -> Option<Fun> {
@@ -58,24 +62,31 @@ impl Fun {
             "convert_latin1_to_str_partial" => Some(Fun::L1StrP),
             "convert_latin1_to_str" => Some(Fun::L1Str),
             _ => {
-                let (f, enc) = s.split_once(':')?;
-                let repl = match f {
+                let parts: Vec<&str> = s.split(':').collect();
+                if parts.len() < 2 || parts.len() > 3 || (parts.len() == 3 && parts[2] != "sniff") {
+                    return None;
+                }
+                let repl = match parts[0] {
                     "decode_to_str" => true,
                     "decode_to_str_without_replacement" => false,
                     _ => return None,
                 };
-                let e = all_encodings().into_iter().find(|e| ident(e) == enc)?;
-                Some(Fun::Dec(e, repl))
+                let e = all_encodings().into_iter().find(|e| ident(e) == parts[1])?;
+                Some(Fun::Dec(e, repl, parts.len() == 3))
             }
         }
     }
     fn src16(&self) -> bool {
         matches!(self, Fun::U16StrP | Fun::U16Str)
     }
-    /// does the function zero a stride window (`decode_to_str*`: `self.encoding != UTF_8`)
-    fn stride(&self) -> bool {
-        match self {
-            Fun::Dec(e, _) => *e != encoding_rs::UTF_8,
+    /// does the function zero a stride window (`decode_to_str*`: `self.encoding != UTF_8`, where
+    /// `self.encoding` is the encoding after BOM sniffing)
+    fn stride(&self, src: &Src) -> bool {
+        match (self, src) {
+            (Fun::Dec(e, _, sniff), Src::B(b)) => {
+                let used = if *sniff { Encoding::for_bom(b).map(|(e, _)| e).unwrap_or(*e) } else { *e };
+                used != encoding_rs::UTF_8
+            }
             _ => true,
         }
     }
@@ -132,14 +143,14 @@ fn run_case(out: &mut Out, props: &[&str], f: Fun, src: &Src, before: &[u8]) {
                 (Fun::U16Str, Src::W(w)) => mem::convert_utf16_to_str(w, s),
                 (Fun::L1StrP, Src::B(b)) => mem::convert_latin1_to_str_partial(b, s).1,
                 (Fun::L1Str, Src::B(b)) => mem::convert_latin1_to_str(b, s),
-                (Fun::Dec(e, true), Src::B(b)) => {
-                    let mut d = e.new_decoder_without_bom_handling();
+                (Fun::Dec(e, true, sniff), Src::B(b)) => {
+                    let mut d = if sniff { e.new_decoder() } else { e.new_decoder_without_bom_handling() };
                     let (r, _, w, _) = d.decode_to_str(b, s, true);
                     let _ = matches!(r, CoderResult::InputEmpty);
                     w
                 }
-                (Fun::Dec(e, false), Src::B(b)) => {
-                    let mut d = e.new_decoder_without_bom_handling();
+                (Fun::Dec(e, false, sniff), Src::B(b)) => {
+                    let mut d = if sniff { e.new_decoder() } else { e.new_decoder_without_bom_handling() };
                     let (r, _, w) = d.decode_to_str_without_replacement(b, s, true);
                     let _ = matches!(r, DecoderResult::InputEmpty);
                     w
@@ -181,7 +192,7 @@ fn run_case(out: &mut Out, props: &[&str], f: Fun, src: &Src, before: &[u8]) {
             }
             // the region the function is entitled to zero, computed on the old contents
             let mut e = w;
-            if f.stride() {
+            if f.stride(src) {
                 e = dst.len().min(w + MAX_STRIDE_SIZE);
             }
             while e < dst.len() && is_cont(before[e]) {
@@ -195,7 +206,7 @@ fn run_case(out: &mut Out, props: &[&str], f: Fun, src: &Src, before: &[u8]) {
                     before[i],
                     dst[i],
                     w,
-                    if f.stride() { "MAX_STRIDE_SIZE + " } else { "" },
+                    if f.stride(src) { "MAX_STRIDE_SIZE + " } else { "" },
                     e
                 );
                 fails.push(("C15", msg.clone()));
@@ -373,8 +384,33 @@ pub fn generate(prop: &str, out: &mut Out, thorough: bool, seed: u64) -> bool {
                         let before = make_dst(len, pat, case % 4);
                         let repl = if thorough { vec![true, false] } else { vec![case % 2 == 0] };
                         for r in repl {
-                            run_case(out, props, Fun::Dec(e, r), &Src::B(s.clone()), &before);
+                            run_case(out, props, Fun::Dec(e, r, false), &Src::B(s.clone()), &before);
                         }
+                    }
+                }
+            }
+        }
+    }
+    // decoders with BOM sniffing: `self.encoding` (which decides the stride zeroing) is the encoding after the
+    // BOM decision — a UTF-8 BOM switches a legacy decoder to UTF-8 (no stride zeroing), a UTF-16 BOM switches
+    // the UTF-8 decoder to UTF-16 (stride zeroing), an incomplete BOM is replayed through the nominal decoder
+    if prop == "C05" {
+        let boms: [&[u8]; 6] = [&[0xEF, 0xBB, 0xBF], &[0xFF, 0xFE], &[0xFE, 0xFF], &[0xEF, 0xBB], &[0xEF], &[]];
+        for label in ["UTF-8", "windows-1252", "Shift_JIS", "UTF-16BE"] {
+            let e = Encoding::for_label(label.as_bytes()).expect("harness: label");
+            for bom in boms.iter() {
+                for body in [&b"aaaaaaaaaaaaaaa\xC3\xA4\xE3\x81\x82"[..], &b"a\0a\0a\0a\0a\0a\0a\0a\0a\0a\0a\0a\0a\0a\0a\0a\0\xE4\0\x42\x30"[..], &b"\x82\xA0"[..]] {
+                    let mut s: Vec<u8> = bom.to_vec();
+                    s.extend_from_slice(body);
+                    let full = {
+                        let (cow, _, _) = e.decode(&s);
+                        cow.len()
+                    };
+                    let lens: Vec<usize> = if thorough { (0..=(full + 2 * MAX_STRIDE_SIZE + 5)).collect() } else { vec![full.saturating_sub(3), full, full + 3, full + MAX_STRIDE_SIZE + 2, full + 2 * MAX_STRIDE_SIZE + 3] };
+                    for len in lens {
+                        case += 1;
+                        let before = make_dst(len, case % 3, case % 4);
+                        run_case(out, props, Fun::Dec(e, case % 2 == 0, true), &Src::B(s.clone()), &before);
                     }
                 }
             }
